@@ -226,10 +226,10 @@ int ref_pq_write(ref_arena* a, const ref_write_req* rq, ref_buf* out, ref_pagein
                 if (L->dict_offset_present) { cm->has_dict_page_offset = true; cm->dict_page_offset = (int64_t)chunk_start; }
             }
             cm->data_page_offset = (L->data_offset_at_dict && dict) ? (int64_t)chunk_start : (int64_t)out->n;
-            int npg = L->npages > 0 ? L->npages : (c->nlevels > 0 ? 1 : 0);
+            int npg = L->uniform_page_levels > 0 ? (int)((c->nlevels + L->uniform_page_levels - 1) / L->uniform_page_levels) : L->npages > 0 ? L->npages : (c->nlevels > 0 ? 1 : 0);
             int64_t lpos = 0, vpos = 0;
             for (int p = 0; p < npg; p++) {
-                int64_t pl = L->npages > 0 ? L->page_levels[p] : c->nlevels;
+                int64_t pl = L->uniform_page_levels > 0 ? (c->nlevels - lpos < L->uniform_page_levels ? c->nlevels - lpos : L->uniform_page_levels) : L->npages > 0 ? L->page_levels[p] : c->nlevels;
                 int64_t pv = 0; for (int64_t i = 0; i < pl; i++) if (c->max_def == 0 || c->def[lpos + i] == c->max_def) pv++;
                 ref_buf rep, def, val; ref_buf_init(&rep); ref_buf_init(&def); ref_buf_init(&val);
                 put_levels(c->rep, lpos, pl, c->max_rep, L->level_form, L->level_encoding, !L->v2, &rep);
